@@ -115,3 +115,42 @@ L('scd_outer_inv', {'s': 'str', 't': 'str', 'N': 'int', 'u': 'int'}, 'scd_outer(
   requires=[_INV, 'u <= N + 1'], uses=['scd_inner_inv(s, t, N, u - 1, u - 1)'])
 T('C05_scd_inversion', {'s': 'str', 't': 'str', 'N': 'int'}, 'scd_spec(s, N) == scd_spec(t, N)', requires=[_INV, 'N >= 1'],
   uses=['scd_outer_inv(s, t, N, N + 1)'])
+
+# counting lemmas for the permutant builder: symbols of the candidate before position j vs in total
+for _ch, _nm in (('+', 'plus'), ('-', 'minus'), ('0', 'zero')):
+    L('n_sym_strict_' + _nm, {'u': 'str', 'k': 'int'},
+      'forall(lambda j: implies(u[j] == "%s", n_sym(u, "%s", 0, j) < n_sym(u, "%s", 0, k)), 0, k)' % (_ch, _ch, _ch), ind='k', base='0')
+    L('n_sym_nonneg_' + _nm, {'u': 'str', 'k': 'int'}, 'forall(lambda j: n_sym(u, "%s", 0, j) >= 0, 0, k + 1)' % _ch, ind='k', base='0')
+
+# two boolean sequences that agree on [lo,hi) have the same count there
+L('cnt_ext', {'a': 'list[bool]', 'b': 'list[bool]', 'lo': 'int', 'hi': 'int'},
+  'cnt(lambda j: a[j], lo, hi) == cnt(lambda j: b[j], lo, hi)', ind='hi', base='lo', requires=['forall(lambda j: a[j] == b[j], lo, hi)'])
+
+# block structure of the candidate strings: counts of a symbol over a stretch that is all / nowhere that symbol, and splitting
+L('nsym_split', {'u': 'str', 'c': 'char', 'lo': 'int', 'mid': 'int', 'hi': 'int'},
+  'cnt(lambda j: u[j] == c, lo, hi) == cnt(lambda j: u[j] == c, lo, mid) + cnt(lambda j: u[j] == c, mid, hi)', ind='hi', base='mid',
+  requires=['lo <= mid', 'mid <= hi'])
+L('nsym_all', {'u': 'str', 'c': 'char', 'lo': 'int', 'hi': 'int'}, 'cnt(lambda j: u[j] == c, lo, hi) == hi - lo', ind='hi', base='lo',
+  requires=['lo <= hi', 'forall(lambda j: u[j] == c, lo, hi)'])
+L('nsym_none', {'u': 'str', 'c': 'char', 'lo': 'int', 'hi': 'int'}, 'cnt(lambda j: u[j] == c, lo, hi) == 0', ind='hi', base='lo',
+  requires=['forall(lambda j: Not(u[j] == c), lo, hi)'])
+
+# delta is a mean of squares: never negative (used to show that the first candidate already lifts the running maximum above -1)
+L('dform_nonneg', {'s': 'str', 'N': 'int', 'b': 'int', 'k': 'int'}, 'dform_upto(s, N, b, k) >= 0', ind='k', base='0', requires=['b >= 1', 'k <= N - b + 1'])
+T('delta_nonneg', {'s': 'str', 'N': 'int'}, 'delta_spec(s, N) >= 0', requires=['N >= 1'],
+  uses=['dform_nonneg(s, N, 5, N - 5 + 1)', 'dform_nonneg(s, N, 6, N - 6 + 1)'])
+
+# an uncharged sequence has delta 0 (all blob sigmas and the sequence sigma are 0)
+L('cnt_split', {'b': 'list[bool]', 'lo': 'int', 'mid': 'int', 'hi': 'int'},
+  'cnt(lambda j: b[j], lo, hi) == cnt(lambda j: b[j], lo, mid) + cnt(lambda j: b[j], mid, hi)', ind='hi', base='mid', requires=['lo <= mid', 'mid <= hi'])
+L('cnt_nonneg', {'b': 'list[bool]', 'lo': 'int', 'hi': 'int'}, 'cnt(lambda j: b[j], lo, hi) >= 0', ind='hi', base='lo')
+_PB = 'mkseq(lambda j: isin(s[j], "KR+"), N, "bool")'
+_NB = 'mkseq(lambda j: isin(s[j], "DE-"), N, "bool")'
+L('dform_uncharged', {'s': 'str', 'N': 'int', 'b': 'int', 'k': 'int'}, 'dform_upto(s, N, b, k) == 0', ind='k', base='0',
+  requires=['b >= 1', 'k <= N - b + 1', 'npos(s, 0, N) == 0', 'nneg(s, 0, N) == 0'],
+  uses=['cnt_split(%s, 0, k - 1, N)' % _PB, 'cnt_split(%s, k - 1, k - 1 + b, N)' % _PB, 'cnt_nonneg(%s, 0, k - 1)' % _PB, 'cnt_nonneg(%s, k - 1, k - 1 + b)' % _PB,
+        'cnt_nonneg(%s, k - 1 + b, N)' % _PB,
+        'cnt_split(%s, 0, k - 1, N)' % _NB, 'cnt_split(%s, k - 1, k - 1 + b, N)' % _NB, 'cnt_nonneg(%s, 0, k - 1)' % _NB, 'cnt_nonneg(%s, k - 1, k - 1 + b)' % _NB,
+        'cnt_nonneg(%s, k - 1 + b, N)' % _NB])
+T('delta_uncharged', {'s': 'str', 'N': 'int'}, 'delta_spec(s, N) == 0', requires=['N >= 1', 'npos(s, 0, N) == 0', 'nneg(s, 0, N) == 0'],
+  uses=['dform_uncharged(s, N, 5, N - 5 + 1)', 'dform_uncharged(s, N, 6, N - 6 + 1)'])
